@@ -108,6 +108,29 @@ pub fn run(case: &Value, ctx: &Ctx) -> Outcome {
 }
 
 /// A large pseudo-random cohort: 64 KiB BGZF blocks, many threads, repeated runs.
+/// Deterministic pseudo-random cohort: (column names, VCF text).
+pub fn cohort_vcf(seed: u64, nsamples: usize, nrecs: usize, miss: u64, multi_pct: u64) -> (Vec<String>, String) {
+    let cols: Vec<String> = (0..nsamples).map(|i| format!("s{i}")).collect();
+    let mut state = seed.wrapping_mul(6364136223846793005).wrapping_add(1442695040888963407) | 1;
+    let mut next = || { state ^= state << 13; state ^= state >> 7; state ^= state << 17; state };
+    let mut text = gen::vcf_header(&cols);
+    for r in 0..nrecs {
+        let freq = next() % 100;
+        let mut gt = std::collections::BTreeMap::new();
+        for c in &cols {
+            let g = if next() % 100 < miss { "./.".to_string() } else if next() % 100 < multi_pct { "1/2".to_string() } else {
+                let a = (next() % 100 < freq) as u8;
+                let b = (next() % 100 < freq) as u8;
+                format!("{a}{}{b}", if next() % 2 == 0 { '/' } else { '|' })
+            };
+            gt.insert(c.clone(), g);
+        }
+        let rec = gen::Rec { contig: if r < nrecs / 2 { "chr1".into() } else { "chr2".into() }, pos: (r + 1) as u64, bad: false, gt };
+        text.push_str(&gen::vcf_record(&cols, &rec, r, false));
+    }
+    (cols, text)
+}
+
 fn cohort(case: &Value, ctx: &Ctx) -> Outcome {
     let mut out = Outcome::default();
     let seed = case["seed"].as_u64().unwrap();
